@@ -27,7 +27,7 @@ RULE = ('each run = one seeded dependency digraph (self-loop / cycle of every '
         'kind+depth, fault fired) signature')
 ASSUMPTIONS = [
     'step clock counts Python line events in xlcalculator/ frames, not seconds',
-    'budgets are polynomials with slack: depth<=24(|R|+2), steps<=5000+300(|R|+range cells)^2, message<=16(L+2)^3+4*text+512',
+    'budgets are polynomials with slack: depth<=24(|R|+2), steps<=5000+300(|R|+range cells)^2, message<=min(16(L+2)^3, 256(L+2)^2)+4*text+512',
     'IF(TRUE,x,y): a cycle or failure reachable only through the unselected branch may or may not be reported (both accepted)',
 ]
 PROBE_CELLS = {'Sheet1!ZZ1': 5, 'Sheet1!ZZ2': '=ZZ1+1'}
@@ -530,7 +530,10 @@ def budgets(exp):
     R, L = exp['R'], exp['R']
     return {'max_depth': 24 * (R + 2),
             'max_steps': 5000 + 300 * (R + exp['range_cells']) ** 2,
-            'max_msg': 16 * (L + 2) ** 3 + 4 * exp['text'] + 512}
+            # cubic for short chains, capped by a generous quadratic for long
+            # ones (a message that lists the chain at every level is O(L^2))
+            'max_msg': min(16 * (L + 2) ** 3, 256 * (L + 2) ** 2)
+            + 4 * exp['text'] + 512}
 
 
 def classify(out):
@@ -588,7 +591,8 @@ def run_case(case):
                 dm = worlds.build_model(cells, rot, default_sheet=s0)
                 dev = Evaluator(dm, UserFuncs(None).namespace())
                 for a in addrs_[:12]:
-                    stq = Stepper(max_steps=200_000, max_depth=900)
+                    stq = Stepper(max_steps=200_000, max_depth=900,
+                                  max_msg=1_000_000)
                     with stq:
                         outcome_of(dev.evaluate, a)
                 bump('probe:decoy_model_first')
